@@ -322,6 +322,12 @@ impl Sim {
         let baseline: BTreeSet<i32> = open_fds(256).into_iter().collect();
         let n = COUNTER.fetch_add(1, Ordering::Relaxed);
         let name = format!("mhv-{}-{}", std::process::id(), n);
+        // in the shards that run with standard input closed the kill-switch descriptor is created BEFORE the
+        // listener, so that it is the one that gets number 0 (in simulators without a kill switch the listener does)
+        let mut early_kill: Option<EventFd> = None;
+        if with_kill && crate::util::DESCRIPTOR_0_FREE.load(Ordering::Relaxed) {
+            early_kill = Some(EventFd::new(libc::EFD_NONBLOCK).map_err(|e| e.to_string())?);
+        }
         let (mut server, server_name, server_abstract, sock_path, listener_fd) = match run_dir {
             Some(dir) if !dir.is_empty() => {
                 let path = format!("{}/s-{}-{}.sock", dir, std::process::id(), n);
@@ -339,7 +345,10 @@ impl Sim {
         let mut kill = None;
         let mut kill_fd = -1;
         if with_kill {
-            let k = EventFd::new(libc::EFD_NONBLOCK).map_err(|e| e.to_string())?;
+            let k = match early_kill.take() {
+                Some(k) => k,
+                None => EventFd::new(libc::EFD_NONBLOCK).map_err(|e| e.to_string())?,
+            };
             let k2 = k.try_clone().map_err(|e| e.to_string())?;
             kill_fd = k.as_raw_fd();
             server.add_kill_switch(k).map_err(|e| format!("add_kill_switch: {:?}", e))?;
